@@ -182,6 +182,20 @@ func (db *DB) FindInBatches(dest interface{}, batchSize int, fc func(tx *DB, bat
 		batch        int
 	)
 
+	// group the conditions of the chain: appended to "a OR b" the cursor condition of the
+	// following batches would bind to the last branch only and the first batch would repeat for ever
+	if c, ok := tx.Statement.Clauses["WHERE"]; ok {
+		if where, ok := c.Expression.(clause.Where); ok {
+			for _, expr := range where.Exprs {
+				if _, ok := expr.(clause.OrConditions); ok {
+					c.Expression = clause.Where{Exprs: []clause.Expression{clause.And(where.Exprs...)}}
+					tx.Statement.Clauses["WHERE"] = c
+					break
+				}
+			}
+		}
+	}
+
 	// user specified offset or limit
 	var totalSize int
 	if c, ok := tx.Statement.Clauses["LIMIT"]; ok {
